@@ -86,9 +86,9 @@ CritPeriod(x) ==
   IN IF ~f.ok THEN f ELSE IF ~r.ok THEN r ELSE IF f.i >= r.i THEN f ELSE r
 
 \* memchr_rs::memchr(c, h, off): index of the first c at or after off, |h| if there is none
-Memchr(c, h, off) ==
-  LET I == {i \in off..(Len(h) - 1) : At(h, i) = c}
-  IN IF I = {} THEN Len(h) ELSE CHOOSE i \in I : \A j \in I : i <= j
+RECURSIVE Scan(_, _, _)
+Scan(c, h, i) == IF i >= Len(h) THEN Len(h) ELSE IF At(h, i) = c THEN i ELSE Scan(c, h, i + 1)
+Memchr(c, h, off) == Scan(c, h, off)
 \* `start + nlen <= hlen && &h[start..start + nlen] == n`
 MatchAt(h, n, s) == s + Len(n) <= Len(h) /\ SubSeq(h, s + 1, s + Len(n)) = n
 
@@ -140,30 +140,28 @@ ShiftTo(idx, st) ==
   ELSE st + Max(1, period)
 
 Iteration == pc = "loop" /\ steps' = steps + 1 /\ UNCHANGED <<h, n, tier, crit, period>>
-MemchrHit(idx) == GuardHolds /\ idx = Memchr(Anchor, h, offset) /\ idx < Len(h)
+Found == Memchr(Anchor, h, offset)                  \* `let index = memchr(anchor, h, offset);`
+MemchrHit == GuardHolds /\ Found < Len(h)
 
 GuardExit ==
   /\ Iteration /\ ~GuardHolds
   /\ dec' = "exit" /\ Return(-1) /\ UNCHANGED <<offset, index, start>>
 MemchrMiss ==
-  /\ Iteration /\ GuardHolds
-  /\ index' = Memchr(Anchor, h, offset) /\ index' >= Len(h)
+  /\ Iteration /\ GuardHolds /\ Found >= Len(h)
+  /\ index' = Found
   /\ dec' = "none" /\ Return(-1) /\ UNCHANGED <<offset, start>>
 BeforeCrit ==
-  /\ Iteration
-  /\ \E idx \in 0..Len(h) : /\ MemchrHit(idx) /\ idx < crit
-                            /\ index' = idx /\ offset' = idx + 1
+  /\ Iteration /\ MemchrHit /\ Found < crit
+  /\ index' = Found /\ offset' = Found + 1
   /\ dec' = "before" /\ UNCHANGED <<start, res, pc>>
 CompareHit ==
-  /\ Iteration
-  /\ \E idx \in 0..Len(h) : /\ MemchrHit(idx) /\ idx >= crit /\ MatchAt(h, n, idx - crit)
-                            /\ index' = idx /\ start' = idx - crit
-  /\ dec' = "hit" /\ Return(start') /\ UNCHANGED offset
+  /\ Iteration /\ MemchrHit /\ Found >= crit /\ MatchAt(h, n, Found - crit)
+  /\ index' = Found /\ start' = Found - crit
+  /\ dec' = "hit" /\ Return(Found - crit) /\ UNCHANGED offset
 CompareMiss ==
-  /\ Iteration
-  /\ \E idx \in 0..Len(h) : /\ MemchrHit(idx) /\ idx >= crit /\ ~MatchAt(h, n, idx - crit)
-                            /\ index' = idx /\ start' = idx - crit
-                            /\ offset' = ShiftTo(idx, idx - crit)
+  /\ Iteration /\ MemchrHit /\ Found >= crit /\ ~MatchAt(h, n, Found - crit)
+  /\ index' = Found /\ start' = Found - crit
+  /\ offset' = ShiftTo(Found, Found - crit)
   /\ dec' = "miss" /\ UNCHANGED <<res, pc>>
 
 Next == Entry \/ Factorise \/ GuardExit \/ MemchrMiss \/ BeforeCrit \/ CompareHit \/ CompareMiss
